@@ -194,6 +194,7 @@ func VerifHarness_C08_OneLevel3_Thorough() { hRangeKeys(3, 1, false) }
 
 func VerifHarness_C08_TwoLevels() { hRangeKeys(2, 2, true) }
 
-func VerifHarness_C08_TwoLevels3_Thorough() { hRangeKeys(3, 2, false) }
+// not finished within 7 minutes on 16 cores: kept for development (-tier deep), not registered
+func VerifHarness_C08_TwoLevels3_Deep() { hRangeKeys(3, 2, false) }
 
 // four range-key writes in one level did not finish within 30 minutes
